@@ -340,8 +340,8 @@ def nested_total_write(P, R, f, rule: str) -> None:
     for w in writes:
         loops = [lp for lp in _ast.walk(f.node) if isinstance(lp, _ast.For) and any(x is w for x in _ast.walk(lp))]
         loops.sort(key=lambda lp: sum(1 for _ in _ast.walk(lp)))
-        if len(loops) < 2:
-            continue
+        if len(loops) < 3:
+            continue  # frames -> sources -> targets; with fewer levels the loop around the writing loop is the frame loop, whose `continue` (no next frame) is legitimate
         inner, outer = loops[0], loops[1]
         hi, ho = cfg.node_of(inner), cfg.node_of(outer)
         if hi is None or ho is None:
